@@ -364,31 +364,6 @@ fn c32_trigger_value_schedule_k3() {
 }
 
 // @check props=C32 tier=quick
-// @desc wake-ups: one complete wait call G (get_trigger_value), R (register_notification), P, P (polls of the NotificationReceiver) on a condition with an arbitrary enabled mask, interleaved with symbolic worker operations from {add_communication_state(s), remove_communication_state(s), set_enabled_statuses(m), nothing} in the slots: 1 before the check (G). Asserted: the value read at G and the final trigger value equal "an enabled status has changed"; wait returns immediately if it was true at G; a poll is never Pending while the trigger value is true (no lost wake-up, including a status change or the enabling of an already changed status between G and R and after the waiter parked)
-// @bounds 1 condition, 1 waiter, 3 status kinds (mask bits 0, 8, 12), symbolic initial mask, 1 symbolic worker slot(s) + 4 waiter steps; unwind 14 = 13 iterations of the mask loop in DcpsStatusCondition::default() + 1 (all other loops: <= 3 list elements)
-// @assume critical_section::acquire/release stubbed by no-ops (support_cs.rs): a critical section is a block no other operation interleaves with
-// @assume AtomicUsize::fetch_sub stubbed (support_cs.rs fetch_sub_never_last): the shared state behind an Arc is never destroyed or freed; Drop impls of NotificationSender run for real
-// @assume alloc::raw_vec::min_non_zero_cap stubbed by a faithful copy that, after the concrete warm-up (one earlier completed wait: both Vecs of the condition have capacity), asserts amortized Vec growth unreachable (CHECKED obligation, support_cs.rs min_non_zero_cap_checked)
-// @assume every access to the status condition is one atomic step (in the running system: one mail handled by the participant actor, status_condition_methods.rs); the async glue of WaitSetAsync::wait (mail + oneshot reply, check-all / register-all / await order) is mirrored by the waiter steps G, R, P, not executed; pinned by the source guard in vlib/ptab/channels.py
-// @assume polls use Waker::noop(): "the parked waiter is woken" is established as "NotificationSender::notify was called (next poll Ready)" + C34 (notify wakes the waker of the most recent Pending poll)
-// @enc dcps::status_condition::DcpsStatusCondition::add_communication_state
-// @enc dcps::status_condition::DcpsStatusCondition::remove_communication_state
-// @enc dcps::status_condition::DcpsStatusCondition::set_enabled_statuses
-// @enc dcps::status_condition::DcpsStatusCondition::get_trigger_value
-// @enc dcps::status_condition::DcpsStatusCondition::register_notification
-// @enc dcps::channels::notification::NotificationSender::notify
-// @enc <dcps::channels::notification::NotificationReceiver as Future>::poll
-#[kani::proof]
-#[kani::unwind(14)]
-#[kani::stub(critical_section::acquire, super::support_cs::cs_acquire)]
-#[kani::stub(critical_section::release, super::support_cs::cs_release)]
-#[kani::stub(core::sync::atomic::Atomic::<usize>::fetch_sub, super::support_cs::fetch_sub_never_last)]
-#[kani::stub(alloc::raw_vec::min_non_zero_cap, super::support_cs::min_non_zero_cap_checked)]
-fn c32_wait_interleaved_1000() {
-    wait_interleaved::<1, 0, 0, 0>();
-}
-
-// @check props=C32 tier=quick
 // @desc wake-ups: one complete wait call G (get_trigger_value), R (register_notification), P, P (polls of the NotificationReceiver) on a condition with an arbitrary enabled mask, interleaved with symbolic worker operations from {add_communication_state(s), remove_communication_state(s), set_enabled_statuses(m), nothing} in the slots: 1 between check (G) and register (R). Asserted: the value read at G and the final trigger value equal "an enabled status has changed"; wait returns immediately if it was true at G; a poll is never Pending while the trigger value is true (no lost wake-up, including a status change or the enabling of an already changed status between G and R and after the waiter parked)
 // @bounds 1 condition, 1 waiter, 3 status kinds (mask bits 0, 8, 12), symbolic initial mask, 1 symbolic worker slot(s) + 4 waiter steps; unwind 14 = 13 iterations of the mask loop in DcpsStatusCondition::default() + 1 (all other loops: <= 3 list elements)
 // @assume critical_section::acquire/release stubbed by no-ops (support_cs.rs): a critical section is a block no other operation interleaves with
@@ -492,6 +467,31 @@ fn c32_enable_after_register() {
 // =====================================================================================
 // thorough tier: two symbolic worker slots, longer trigger-value schedule
 // =====================================================================================
+
+// @check props=C32 tier=thorough timeout=1500
+// @desc wake-ups: one complete wait call G (get_trigger_value), R (register_notification), P, P (polls of the NotificationReceiver) on a condition with an arbitrary enabled mask, interleaved with symbolic worker operations from {add_communication_state(s), remove_communication_state(s), set_enabled_statuses(m), nothing} in the slots: 1 before the check (G). Asserted: the value read at G and the final trigger value equal "an enabled status has changed"; wait returns immediately if it was true at G; a poll is never Pending while the trigger value is true (no lost wake-up, including a status change or the enabling of an already changed status between G and R and after the waiter parked)
+// @bounds 1 condition, 1 waiter, 3 status kinds (mask bits 0, 8, 12), symbolic initial mask, 1 symbolic worker slot(s) + 4 waiter steps; unwind 14 = 13 iterations of the mask loop in DcpsStatusCondition::default() + 1 (all other loops: <= 3 list elements)
+// @assume critical_section::acquire/release stubbed by no-ops (support_cs.rs): a critical section is a block no other operation interleaves with
+// @assume AtomicUsize::fetch_sub stubbed (support_cs.rs fetch_sub_never_last): the shared state behind an Arc is never destroyed or freed; Drop impls of NotificationSender run for real
+// @assume alloc::raw_vec::min_non_zero_cap stubbed by a faithful copy that, after the concrete warm-up (one earlier completed wait: both Vecs of the condition have capacity), asserts amortized Vec growth unreachable (CHECKED obligation, support_cs.rs min_non_zero_cap_checked)
+// @assume every access to the status condition is one atomic step (in the running system: one mail handled by the participant actor, status_condition_methods.rs); the async glue of WaitSetAsync::wait (mail + oneshot reply, check-all / register-all / await order) is mirrored by the waiter steps G, R, P, not executed; pinned by the source guard in vlib/ptab/channels.py
+// @assume polls use Waker::noop(): "the parked waiter is woken" is established as "NotificationSender::notify was called (next poll Ready)" + C34 (notify wakes the waker of the most recent Pending poll)
+// @enc dcps::status_condition::DcpsStatusCondition::add_communication_state
+// @enc dcps::status_condition::DcpsStatusCondition::remove_communication_state
+// @enc dcps::status_condition::DcpsStatusCondition::set_enabled_statuses
+// @enc dcps::status_condition::DcpsStatusCondition::get_trigger_value
+// @enc dcps::status_condition::DcpsStatusCondition::register_notification
+// @enc dcps::channels::notification::NotificationSender::notify
+// @enc <dcps::channels::notification::NotificationReceiver as Future>::poll
+#[kani::proof]
+#[kani::unwind(14)]
+#[kani::stub(critical_section::acquire, super::support_cs::cs_acquire)]
+#[kani::stub(critical_section::release, super::support_cs::cs_release)]
+#[kani::stub(core::sync::atomic::Atomic::<usize>::fetch_sub, super::support_cs::fetch_sub_never_last)]
+#[kani::stub(alloc::raw_vec::min_non_zero_cap, super::support_cs::min_non_zero_cap_checked)]
+fn c32_wait_interleaved_1000() {
+    wait_interleaved::<1, 0, 0, 0>();
+}
 
 // @check props=C32 tier=thorough timeout=1500
 // @desc wake-ups: one complete wait call G (get_trigger_value), R (register_notification), P, P (polls of the NotificationReceiver) on a condition with an arbitrary enabled mask, interleaved with symbolic worker operations from {add_communication_state(s), remove_communication_state(s), set_enabled_statuses(m), nothing} in the slots: 1 before the check (G); 1 between the first and the second poll. Asserted: the value read at G and the final trigger value equal "an enabled status has changed"; wait returns immediately if it was true at G; a poll is never Pending while the trigger value is true (no lost wake-up, including a status change or the enabling of an already changed status between G and R and after the waiter parked)
